@@ -257,7 +257,7 @@ def o37(ctx):
     ctx.count(total, {"functions": len(quals), "library call sites checked": total})
 
 
-def obligations():
+def _obligations():
     return [
         Obligation("O3.1", "export: ZYZ(rlnAngleRot,Tilt,Psi) is the inverse of the particle rotation (3.0/3.1/4.0)", o31, floor=3),
         Obligation("O3.2", "import: zxz(phi,theta,psi) is the inverse of the RELION rotation, for any order of the angle columns", o32, floor=6),
@@ -269,3 +269,7 @@ def obligations():
         Obligation("O3.8a", "STAR writer on the via-file path: cell text reads back to the value (shared with C02)", _star.o23, floor=30),
         Obligation("O3.8b", "STAR reader on the via-file path: numeric conversion and block tables (shared with C02)", _star.o24, floor=5),
     ]
+
+
+def obligations():
+    return _obligations() + [effects_obligation("C03")]
